@@ -113,6 +113,7 @@ func RunSeq(sc SeqScenario, o SeqOpts) *SeqResult {
 		}
 	}()
 	w := NewWorld(sc.Cfg)
+	w.SeqGuard = true
 	defer w.Release()
 	if o.Setup != nil {
 		o.Setup(w)
@@ -236,6 +237,9 @@ func RunSeq(sc SeqScenario, o SeqOpts) *SeqResult {
 				add(p.op, c, d, sc.Ops[p.op], p.e.Class, r.Class)
 			}
 		}
+	}
+	if t := w.LockTrouble(); t != "" {
+		res.Findings = append(res.Findings, Finding{Sig: fmt.Sprintf("%s key-lock-never-granted cfg=%s", sc.Harness, cfgClass(sc.Cfg)), What: t, Clause: "lock"})
 	}
 	hung, spun, bad, residue := w.Diag()
 	if hung {
